@@ -140,11 +140,13 @@ def cases(ctx, budget):
                 e.find("$..*", data); return "ok"
             except jp.JSONPathRecursionError: return "rec"
             except Alarm: return "timeout"
+            except chooser.Runaway: return "does-not-stop"
             except Exception as ex: return type(ex).__name__
             finally: signal.alarm(0)
         n = 0
-        for script, out in chooser.enumerate_outcomes(run, cap):
+        for script, out in chooser.enumerate_outcomes(run, cap, max_choices=choice_bound(cells, limit)):
             res.add(out); n += 1
+            if out in ("timeout", "does-not-stop"): break          # one run that does not stop is enough; the next would not stop either
         return res, n
 
     echo_segs = {}
@@ -172,13 +174,30 @@ def cases(ctx, budget):
                 return [0] + wire.enc_list(lambda l: wire.enc_list(wire.enc_key, list(l)), [nd_.location for nd_ in seg.resolve([root])])
             except jp.JSONPathRecursionError: return [1, 6]
             except Alarm: return [9, 9]
+            except chooser.Runaway: return [9, 8]
             except Exception as ex: return wire.enc_exception(ex)[:2]
             finally: signal.alarm(0)
         n = 0
-        for script, out in chooser.enumerate_outcomes(run, cap):
+        for script, out in chooser.enumerate_outcomes(run, cap, max_choices=choice_bound(cells, limit)):
             n += 1
+            if out[0] == 9:
+                # the traversal did not stop (more random choices than a run that stops can make, or the alarm): a failing input of the property itself
+                msg = "nondeterministic traversal does not stop on this data (limit %d): %s" % (limit, "alarm after 20 s" if out[1] == 9 else "still drawing random choices after %d" % len(script))
+                yield Case({"cells": cells, "limit": limit, "mode": "nondeterministic", "script": script[:200], "script_length": len(script)}, None, [9], [118, 0], None, True,
+                           kind + "-script", True, lambda a, b, p=msg: p)
+                break
             yield Case({"cells": cells, "limit": limit, "mode": "nondeterministic", "script": script},
                        [25, 200000, limit, len(script)] + list(script) + enc_graph(cells), out, None, None, nontriv, kind + "-script")
+
+    def choice_bound(cells, limit):
+        """far more random choices than a traversal that stops can make on this graph with this limit: it visits at most (fan-out)^(limit+1)
+        nodes and makes a bounded number of choices per node; capped, because beyond the cap the 20 s alarm decides"""
+        fan = max([len(c[1]) for c in cells if c[0] != "s"] + [1])
+        nodes = 1
+        for _ in range(min(limit, 60) + 1):
+            nodes = nodes * fan + 1
+            if nodes > 200000: break
+        return min(50 * nodes + 1000, 2000000)
 
     def below_root(cells, limit, nd):
         """the same value reached through child segments / inside a filter: the depth is counted from the node '..' is applied to"""
@@ -220,6 +239,18 @@ def cases(ctx, budget):
             desc = {"cells": cells if len(cells) < 40 else len(cells), "limit": limit, "mode": "nondeterministic", "scripts": n, "outcomes": sorted(outs)}
             if prob: yield Case(desc, None, [9], [118, 0], None, True, kind, True, lambda a, b, p=prob: p)
             else: yield Case(desc, None, [0], None, None, nontriv, kind)
+    mk_inner = mk
+
+    def mk(cells, limit, kind, nontriv, nd_cap):
+        """an alarm that goes off outside the guarded calls (between a call's end and the cancellation of its alarm, or while a huge result is being
+        freed) still means that something on this data ran for 20 s: it is reported as such, with the data, instead of ending the check"""
+        try:
+            for c in mk_inner(cells, limit, kind, nontriv, nd_cap): yield c
+        except Alarm:
+            yield Case({"cells": cells if len(cells) < 40 else len(cells), "limit": limit, "mode": "either"}, None, [9], [118, 0], None, True, kind, True,
+                       lambda a, b: "an evaluation on this data ran into the 20 s alarm")
+        finally:
+            signal.alarm(0)
     limits = [1, 2, 3, 4, 5, 6, 99, 100, 101] + ([1100] if ctx.quick else [1100, 2000])
     for limit in limits:
         for delta in ((-2, -1, 0, 1, 2) if limit <= 101 or not ctx.quick else (0, 1)):
